@@ -5,7 +5,7 @@
    Model: Mem/MemDB.v (the array-encoded skip list as coded in leveldb/memdb/memdb.go).
    Reference: Mem/MemSpec.v (sorted association list + cursor over its visible part). *)
 From GL Require Import Base.Order Codec.BytesCmp Codec.BytesCmpProofs Mem.MemDB Mem.MemSpec Mem.MemDBProofs
-  Mem.MemConc Mem.MemConcProofs Gen.ConstsOkMem.
+  Mem.MemConc Mem.MemConcProofs Mem.MemTotal Gen.ConstsOkMem.
 Open Scope N_scope.
 
 (* 0. The constants of the current source give the node layout the theorems assume. *)
@@ -86,6 +86,15 @@ Theorem C14_concurrent_readers_safe :
     exists obs, crun c p acts = Ok obs /\ Forall (obs_good c) obs.
 Proof. exact conc_safe. Qed.
 Print Assumptions C14_concurrent_readers_safe.
+
+(* 5. The model never panics: on ANY sequential program with heights in range - also those the
+   reference declines in 1 (Next on an iterator whose key was deleted under it) - every operation
+   of the array model returns: no index outside nodeData/kvData/prevNode, fuel never exhausted. *)
+Theorem C14_model_never_panics :
+  forall c, comparer_ok c -> forall p, mparams_ok p ->
+  forall ops, heights_ok (tMaxHeight p) ops -> exists outs, run c p ops = Ok outs.
+Proof. exact run_total. Qed.
+Print Assumptions C14_model_never_panics.
 
 (* Non-vacuity of 4: a reader stands on key 1; the writer deletes 1 and then 2; the reader's Next
    follows the link the unlinked node kept and yields the pair (2, 20), which is no longer live but
